@@ -14,6 +14,7 @@ import os
 import vlib
 
 QUICK_CLASSES = {("FE14", "EnglishNA"), ("FE10", "Spanish"), ("FE13", "Japanese"), ("FE9", "Dutch")}   # MC_LayeredFS!ClassesQuick
+BIG = []     # write events with payloads around / beyond the LZ window (TLC's "B" line, filled by generate(big=True))
 TWINS = {}   # (game, lang) -> {requested raw path: twin record printed by TLC}  (filled by generate)
 MUTATING = ("write", "create_dir", "write_archive", "write_text_archive")
 LIST_OPS = ("list", "subdirectories")
@@ -37,10 +38,13 @@ def model_check(ctx, depth, laws, tier=None):
     return r
 
 
-def generate(ctx, depth, tier=None):
+def generate(ctx, depth, tier=None, big=False):
     """-> (events of the call alphabet, list of states) printed by TLC"""
-    g = ctx.tlc("MC_LayeredFS", "Gen_LayeredFS.cfg", env={"VERIF_TIER": tier or ctx.tier, "FS_DEPTH": depth, "FS_GEN": "1"},
-                count=False, workers=1, timeout=2400)
+    env = {"VERIF_TIER": tier or ctx.tier, "FS_DEPTH": depth, "FS_GEN": "1"}
+    if big:
+        env["FS_BIG"] = "1"
+    g = ctx.tlc("MC_LayeredFS", "Gen_LayeredFS.cfg", env=env, count=False, workers=1, timeout=2400)
+    BIG[:] = g.tagged("B")[0] if big else []
     ev = g.tagged("E")
     states = g.tagged("S")
     if len(ev) != 1 or not states:
@@ -92,9 +96,14 @@ def build_cases(states, events, keep, twins=False, chunk=12, readback=True, sand
     expanded = []
     for e in evs:
         if e["op"] in ("write_archive", "write_text_archive"):
-            for fix in (("le",) if sandwich == "c13" else ("le", "be")):
+            # configuration of the archive x its provenance: built through the API (dirty), parsed from bytes as the
+            # typed readers hand it out (clean), new with only a title (text archives)
+            combos = (("le", "built"),) if sandwich == "c13" else \
+                (("le", "built"), ("be", "built"), ("le", "loaded"), ("be", "titled")) if e["op"] == "write_text_archive" else \
+                (("le", "built"), ("be", "built"), ("le", "loaded"))
+            for fix, prov in combos:
                 x = dict(e)
-                x["fix"] = fix
+                x["fix"], x["prov"] = fix, prov
                 expanded.append(x)
         else:
             expanded.append(dict(e))
@@ -106,7 +115,8 @@ def build_cases(states, events, keep, twins=False, chunk=12, readback=True, sand
             # read-after-write: the same path with the same localisation choice is read back (and looked up) on the
             # same directories right after each write
             follow = [_q(op, e["p"]["c"], e["p"]["t"], e["loc"]) for op in ("read", "file_exists", "resolve")]
-        if sandwich and (sandwich == "c13" or e["op"] == "create_dir" or e.get("data") == [1, 2, 3] or e.get("fix") == "le"):
+        if sandwich and (sandwich == "c13" or e["op"] == "create_dir" or e.get("data") == [1, 2, 3]
+                         or (e.get("fix"), e.get("prov")) == ("le", "built")):
             obs = observations(e, sandwich)
             e["before"] = obs
             e["clone_then"] = obs
@@ -237,7 +247,7 @@ def pre_state_of(events, k):
     return None
 
 
-CALL_FIELDS = ("op", "p", "raw", "loc", "data", "glob", "fix")
+CALL_FIELDS = ("op", "p", "raw", "loc", "data", "glob", "fix", "prov")
 
 
 def history_of(events, k):
@@ -353,7 +363,7 @@ def count_nontrivial(events):
         if e["op"] == "reset":
             game, lang = e["game"], e["lang"]
         if nontrivial_event(e):
-            seen.add(json.dumps([game, lang, e["op"], e.get("raw"), e.get("loc"), e.get("glob"), e.get("data"), e.get("fix"),
+            seen.add(json.dumps([game, lang, e["op"], e.get("raw"), e.get("loc"), e.get("glob"), e.get("data"), e.get("fix"), e.get("prov"),
                                  e.get("res")], sort_keys=True))
     return len(seen)
 
@@ -368,9 +378,9 @@ def pick_sandwich_states(states, gi):
 
 
 def run_fs(ctx, laws, keep, owns, profile=None, twins=False, post=None, lz=False, unsupported_games=False, sandwich=None,
-           mutations=None):
+           mutations=None, big_payloads=False, profile_build="release", also_checked=False):
     """model check -> generate -> replay -> validate -> (record -> validate).  Returns (replayed events, recorded events)."""
-    binary = ctx.build("release", "mvh_fs")
+    binary = ctx.build(profile_build, "mvh_fs")
     # 1. the laws on the bounded model
     if ctx.quick():
         model_check(ctx, "1", laws)
@@ -382,7 +392,7 @@ def run_fs(ctx, laws, keep, owns, profile=None, twins=False, post=None, lz=False
     # 2. spec -> impl
     all_events, n_states, unb_all = [], 0, []
     for gi, (depth, tier) in enumerate(gens):
-        alphabet, states = generate(ctx, depth, tier)
+        alphabet, states = generate(ctx, depth, tier, big=big_payloads and gi == 0)
         if gi > 0:
             # second generator run: only the states one mutation away from the initial configurations (the initial
             # ones were covered by the first run), every other one to stay inside the time budget
@@ -391,21 +401,41 @@ def run_fs(ctx, laws, keep, owns, profile=None, twins=False, post=None, lz=False
         n_states += len(states)
         cases = build_cases(states, alphabet, keep, twins=twins, readback=not twins, sandwich=sandwich, mutations=mutations,
                             sandwich_state=pick_sandwich_states(states, gi))
+        if big_payloads and gi == 0:
+            # payloads across the 4096-byte window, written into the empty single-layer configuration of one pair per
+            # game and read back on the same object
+            empties = {}
+            for st in states:
+                if st["layers"] == [[]] and st["depth"] == 0:
+                    empties.setdefault(st["game"], st)
+            for st in empties.values():
+                for e in BIG:
+                    e = dict(e)
+                    e["then"] = [_q("read", e["p"]["c"], e["p"]["t"], e["loc"])]
+                    cases.append({"game": st["game"], "lang": st["lang"], "layers": st["layers"], "events": [e], "fresh": True,
+                                  "twins": False, "roots": 0})
         if unsupported_games and gi == 0:
             # LayeredFilesystem::new on the games the statement does not list: an "unsupported" error (op "new")
             for g in ("FE11", "FE12"):
                 for lang in sorted({s["lang"] for s in states}):
                     cases.append({"game": g, "lang": lang, "layers": [[]], "events": [], "fresh": False, "twins": False})
-        events, unb = replay(ctx, binary, cases, "gen%d" % gi)
-        unb_all += unb
-        bad = validate(ctx, events, "gen%d" % gi)
-        if post:
-            post(events, bad, "spec->impl")
-        else:
-            report(ctx, events, bad, owns, "spec->impl")
-        if lz:
-            validate_streams_with_lz_spec(ctx, events, "gen%d" % gi)
-        all_events += events
+        builds = [("release" if profile_build == "release" else profile_build, binary)]
+        if also_checked and gi == 0:
+            # the same calls against the build with overflow checks and debug assertions
+            builds.append(("checked", ctx.build("checked", "mvh_fs")))
+        for bname, b in builds:
+            tag = "gen%d%s" % (gi, "" if b is binary else "c")
+            direction = "spec->impl" if b is binary else "spec->impl (%s build)" % bname
+            events, unb = replay(ctx, b, cases, tag)
+            unb_all += unb
+            bad = validate(ctx, events, tag)
+            if post:
+                post(events, bad, direction)
+            else:
+                report(ctx, events, bad, owns, direction)
+            if lz:
+                validate_streams_with_lz_spec(ctx, events, tag)
+            all_events += events
     n_calls = sum(1 for e in all_events if e["op"] not in ("reset", "new", "abort"))
     ctx.traces += n_calls
     ctx.evaluations += len(all_events)
@@ -415,7 +445,7 @@ def run_fs(ctx, laws, keep, owns, profile=None, twins=False, post=None, lz=False
     # 3. impl -> spec
     rec = []
     if profile:
-        runs, length = ctx.pick((60, 100), (700, 100))
+        runs, length = ctx.pick((60, 100), (600, 100))
         rec = record(ctx, binary, runs, length, profile, "rec")
         bad = validate(ctx, rec, "rec")
         report(ctx, rec, bad, owns, "impl->spec")
